@@ -29,7 +29,7 @@ fn site_class(name: &str) -> &'static str {
         "BrTable" => "br_table",
         "BrOnNull" | "BrOnNonNull" => "br_on_null",
         "Call" | "CallIndirect" => "call",
-        "Return" | "ReturnCall" => "return",
+        "Return" | "ReturnCall" | "ReturnCallIndirect" => "return",
         "Unreachable" | "Throw" => "trap-op",
         _ => "plain-op",
     }
@@ -314,6 +314,8 @@ pub fn gen_case(id: &str, rng: &mut Rng) -> Result<(Vec<u8>, Vec<Inj>, Vec<(u32,
                         4 if !structured && at + 1 < ops.len() && !plan.iter().any(|i| i.func == fid && i.at == at && i.mode == Mode::Alt) => {
                             push(&mut plan, fid, at, Mode::Alt, Probe::HostThenOrig, rng)
                         }
+                        // an alternate on the function's final `end` is not applied (the end is kept): must stay neutral
+                        4 if at + 1 == ops.len() && !plan.iter().any(|i| i.func == fid && i.at == at) => push(&mut plan, fid, at, Mode::Alt, Probe::Host, rng),
                         5 if name == "Nop" && !plan.iter().any(|i| i.func == fid && i.at == at) => push(&mut plan, fid, at, Mode::EmptyAlt, Probe::Host, rng),
                         6 if !st.blockish.is_empty() => {
                             let b = *rng.pick(&st.blockish);
@@ -353,6 +355,11 @@ pub fn gen_case(id: &str, rng: &mut Rng) -> Result<(Vec<u8>, Vec<Inj>, Vec<(u32,
                         push(&mut plan, fid, *b, mode, Probe::Host, rng);
                     }
                 }
+                // 1 function in 3: an ordinary probe issued AFTER the special ones in the same function
+                if rng.chance(1, 3) {
+                    let at = *rng.pick(&plain);
+                    push(&mut plan, fid, at, Mode::Before, Probe::Host, rng);
+                }
             }
             _ => {
                 for b in &st.blockish {
@@ -364,6 +371,10 @@ pub fn gen_case(id: &str, rng: &mut Rng) -> Result<(Vec<u8>, Vec<Inj>, Vec<(u32,
                     if rng.chance(1, 2) {
                         push(&mut plan, fid, *b, Mode::SemAfter, Probe::Host, rng);
                     }
+                }
+                if rng.chance(1, 3) {
+                    let at = *rng.pick(&plain);
+                    push(&mut plan, fid, at, Mode::Before, Probe::Host, rng);
                 }
             }
         }
